@@ -354,6 +354,33 @@ theorem net_roundtrip (n : Net) (c : Bool) (h : n.WF) (h4 : n.ver = 4) :
       have e : val % 2 ^ 32 = val := by omega
       rw [e, e96]
 
+/-- **IPv6 → IPv4 → IPv6 is lossless too** (networks): for an IPv6 network with prefix ≥ 96 in
+    one of the two blocks, `ipv4()` then `ipv6()` into the same block gives the network back. -/
+theorem net_roundtrip64 (n : Net) (h : n.WF) (h6 : n.ver = 6) (hp : 96 ≤ n.plen)
+    (hb : n.val / 2 ^ 32 = 0 ∨ n.val / 2 ^ 32 = 0xffff) :
+    ∃ b, netIpv4 n = .ok b ∧ b.WF ∧ b.ver = 4 ∧ b.val = n.val % 2 ^ 32 ∧ b.plen = n.plen - 96 ∧
+      netIpv6 b (n.val / 2 ^ 32 == 0) = .ok n := by
+  have hlo := lo_eq; have hp4 := p4; have hp6 := p6; have hw4 := w4; have hw6 := w6
+  have hpl : n.plen ≤ 128 := by have := h.2.2; rw [h6, w6] at this; exact this
+  rw [netIpv4_spec n h, if_neg (by rw [h6]; decide), if_neg (by omega), if_pos hb]
+  have hwf : Net.WF ⟨4, n.val % 2 ^ 32, n.plen - 96⟩ :=
+    ⟨Or.inl rfl, by show n.val % 2 ^ 32 < 2 ^ width 4; omega, by show n.plen - 96 ≤ width 4; omega⟩
+  refine ⟨_, rfl, hwf, rfl, rfl, rfl, ?_⟩
+  rw [netIpv6_spec _ _ hwf]
+  obtain ⟨ver, val, plen⟩ := n
+  dsimp only at h6 hb hp hpl ⊢; subst h6
+  rw [if_pos rfl]
+  have e96 : plen - 96 + 96 = plen := by omega
+  rcases hb with hb | hb
+  · have e : (val / 2 ^ 32 == 0) = true := by rw [hb]; rfl
+    rw [e]; dsimp only
+    have e2 : val % 2 ^ 32 = val := by omega
+    rw [e2, e96]
+  · have e : (val / 2 ^ 32 == 0) = false := by rw [hb]; rfl
+    rw [e]; dsimp only
+    have e2 : mappedLo + val % 2 ^ 32 = val := by omega
+    rw [e2, e96]
+
 example : netIpv6 ⟨4, 0x0a000005, 24⟩ false = .ok ⟨6, 0xffff0a000005, 120⟩ ∧
     netIpv6 ⟨4, 0x0a000005, 24⟩ true = .ok ⟨6, 0x0a000005, 120⟩ ∧
     netIpv4 ⟨6, 0xffff0a000005, 120⟩ = .ok ⟨4, 0x0a000005, 24⟩ ∧
